@@ -9,6 +9,7 @@ package service
 // with the stored context (or the zero value if it is missing).
 //@ func EndBlocker$3
 //@ props C06 C09 C01 C11 C10 C12 C20 C03
+//@ preserves [C10] never_more_batches_than_the_largest_total: cadInv(raw, ghostMaxTot)
 //@ preserves [C12,C16,C08] open_batches_count_their_pending_requests: cntInv(raw)
 //@ modifies raw, bal, cblog
 //@ preserves wf: WF(raw)
@@ -80,6 +81,7 @@ package service
 // EndBlocker$2 = expiredRequestBatchHandler(requestContextID, requestContext): called for every entry of the expiry queue at this height.
 //@ func EndBlocker$2
 //@ props C16 C11 C10 C09 C12 C08 C02 C04 C20
+//@ preserves [C10] never_more_batches_than_the_largest_total: cadInv(raw, ghostMaxTot)
 //@ preserves [C12,C16,C08] open_batches_count_their_pending_requests: cntInv(raw)
 //@ modifies raw, bal, supply, cblog
 //@ preserves wf: WF(raw)
@@ -121,6 +123,7 @@ package service
 // ---------------------------------------------------------------- message handlers (C05: authority; a message debits only its signer)
 //@ func handleMsgDefineService
 //@ props C05 C15 C20
+//@ preserves [C10] never_more_batches_than_the_largest_total: cadInv(raw, ghostMaxTot)
 //@ preserves [C11] no_event_in_the_past: futInv(raw, ctxHeight(ctx))
 //@ preserves [C12,C16,C08] open_batches_count_their_pending_requests: cntInv(raw)
 //@ preserves [C11] queues_stay_well_formed: schedInv(raw)
@@ -131,6 +134,7 @@ package service
 
 //@ func handleMsgBindService
 //@ props C05 C03 C14 C15 C20
+//@ preserves [C10] never_more_batches_than_the_largest_total: cadInv(raw, ghostMaxTot)
 //@ preserves [C11] no_event_in_the_past: futInv(raw, ctxHeight(ctx))
 //@ preserves [C12,C16,C08] open_batches_count_their_pending_requests: cntInv(raw)
 //@ preserves [C11] queues_stay_well_formed: schedInv(raw)
@@ -147,6 +151,7 @@ package service
 
 //@ func handleMsgUpdateServiceBinding
 //@ props C05 C03 C14 C20
+//@ preserves [C10] never_more_batches_than_the_largest_total: cadInv(raw, ghostMaxTot)
 //@ preserves [C11] no_event_in_the_past: futInv(raw, ctxHeight(ctx))
 //@ preserves [C12,C16,C08] open_batches_count_their_pending_requests: cntInv(raw)
 //@ preserves [C11] queues_stay_well_formed: schedInv(raw)
@@ -161,6 +166,7 @@ package service
 
 //@ func handleMsgSetWithdrawAddress
 //@ props C05 C13 C20
+//@ preserves [C10] never_more_batches_than_the_largest_total: cadInv(raw, ghostMaxTot)
 //@ preserves [C11] no_event_in_the_past: futInv(raw, ctxHeight(ctx))
 //@ preserves [C12,C16,C08] open_batches_count_their_pending_requests: cntInv(raw)
 //@ preserves [C11] queues_stay_well_formed: schedInv(raw)
@@ -171,6 +177,7 @@ package service
 
 //@ func handleMsgDisableServiceBinding
 //@ props C05 C03 C20
+//@ preserves [C10] never_more_batches_than_the_largest_total: cadInv(raw, ghostMaxTot)
 //@ preserves [C11] no_event_in_the_past: futInv(raw, ctxHeight(ctx))
 //@ preserves [C12,C16,C08] open_batches_count_their_pending_requests: cntInv(raw)
 //@ preserves [C11] queues_stay_well_formed: schedInv(raw)
@@ -183,6 +190,7 @@ package service
 
 //@ func handleMsgEnableServiceBinding
 //@ props C05 C03 C14 C20
+//@ preserves [C10] never_more_batches_than_the_largest_total: cadInv(raw, ghostMaxTot)
 //@ preserves [C11] no_event_in_the_past: futInv(raw, ctxHeight(ctx))
 //@ preserves [C12,C16,C08] open_batches_count_their_pending_requests: cntInv(raw)
 //@ preserves [C11] queues_stay_well_formed: schedInv(raw)
@@ -198,6 +206,7 @@ package service
 
 //@ func handleMsgRefundServiceDeposit
 //@ props C05 C03 C20
+//@ preserves [C10] never_more_batches_than_the_largest_total: cadInv(raw, ghostMaxTot)
 //@ preserves [C11] no_event_in_the_past: futInv(raw, ctxHeight(ctx))
 //@ preserves [C12,C16,C08] open_batches_count_their_pending_requests: cntInv(raw)
 //@ preserves [C11] queues_stay_well_formed: schedInv(raw)
@@ -212,6 +221,7 @@ package service
 //@ func handleMsgPauseRequestContext
 //@ preserves [C01,C02,C16,C11] pending_requests_stay_well_formed: actInv(raw)
 //@ props C05 C09 C20
+//@ preserves [C10] never_more_batches_than_the_largest_total: cadInv(raw, ghostMaxTot)
 //@ preserves [C11] no_event_in_the_past: futInv(raw, ctxHeight(ctx))
 //@ preserves [C12,C16,C08] open_batches_count_their_pending_requests: cntInv(raw)
 //@ preserves [C11] queues_stay_well_formed: schedInv(raw)
@@ -225,6 +235,7 @@ package service
 //@ func handleMsgStartRequestContext
 //@ preserves [C01,C02,C16,C11] pending_requests_stay_well_formed: actInv(raw)
 //@ props C05 C09 C20
+//@ preserves [C10] never_more_batches_than_the_largest_total: cadInv(raw, ghostMaxTot)
 //@ preserves [C11] no_event_in_the_past: futInv(raw, ctxHeight(ctx))
 //@ preserves [C12,C16,C08] open_batches_count_their_pending_requests: cntInv(raw)
 //@ preserves [C11] queues_stay_well_formed: schedInv(raw)
@@ -237,6 +248,7 @@ package service
 //@ func handleMsgKillRequestContext
 //@ preserves [C01,C02,C16,C11] pending_requests_stay_well_formed: actInv(raw)
 //@ props C05 C09 C20
+//@ preserves [C10] never_more_batches_than_the_largest_total: cadInv(raw, ghostMaxTot)
 //@ preserves [C11] no_event_in_the_past: futInv(raw, ctxHeight(ctx))
 //@ preserves [C12,C16,C08] open_batches_count_their_pending_requests: cntInv(raw)
 //@ preserves [C11] queues_stay_well_formed: schedInv(raw)
@@ -250,6 +262,8 @@ package service
 //@ func handleMsgUpdateRequestContext
 //@ preserves [C01,C02,C16,C11] pending_requests_stay_well_formed: actInv(raw)
 //@ props C05 C09 C10 C20
+//@ requires [C10] never_more_batches_than_the_largest_total: cadInv(raw, ghostMaxTot)
+//@ ensures [C10] never_more_batches_than_the_largest_total_kept: err == NoErr ==> cadInv(raw, maxNext(ghostMaxTot, raw))
 //@ preserves [C11] no_event_in_the_past: futInv(raw, ctxHeight(ctx))
 //@ preserves [C12,C16,C08] open_batches_count_their_pending_requests: cntInv(raw)
 //@ preserves [C11] queues_stay_well_formed: schedInv(raw)
@@ -263,8 +277,28 @@ package service
 //@      c.State != COMPLETED && sameIdentity(c, n) && n.State == c.State && n.BatchCounter == c.BatchCounter)
 //@ ensures error_changes_nothing: err != NoErr ==> raw == old(raw)
 
+//@ func handleMsgCallService
+//@ props C05 C10 C11 C09 C20 C16 C12
+//@ modifies raw, bal, supply, cblog
+//@ preserves wf: WF(raw)
+//@ preserves [C03] deposits_in_custody: depInv(raw, bal)
+//@ requires a2_validated: msg.Timeout > 0 && (msg.Repeated ==> (msg.RepeatedFrequency == 0 || msg.RepeatedFrequency >= msg.Timeout) && (msg.RepeatedTotal == -1 || msg.RepeatedTotal >= 1))
+//@ requires a12_position_index_fits: len(msg.Providers) <= 32767
+//@ requires a3_signer_ordinary: ordinary(msg.Consumer)
+//@ requires a4_fresh_id: !ctxFound(raw, mkCtxID(ctxTxHash(ctx), ctxMsgIndex(ctx)))
+//@ requires invariants: schedInv(raw) && actInv(raw) && cntInv(raw) && futInv(raw, ctxHeight(ctx)) && cadInv(raw, ghostMaxTot)
+//@ ensures [C10,C11,C09] an_ordinary_call_stores_the_context_and_queues_its_first_batch_for_this_block: err == NoErr && !moduleSvcFound(msg.ServiceName) ==> (let id := mkCtxID(ctxTxHash(ctx), ctxMsgIndex(ctx)) in
+//@      bal == old(bal) && supply == old(supply) && cblog == old(cblog) && ctxFound(raw, id) && ctxOf(raw, id).State == RUNNING && ctxOf(raw, id).BatchCounter == 0 && len(ctxOf(raw, id).ModuleName) == 0 &&
+//@      raw == old(raw)[KCtx(id) := raw[KCtx(id)]][KNewQ(ctxHeight(ctx), id) := idVal(id)][KNewH(id) := hVal(ctxHeight(ctx))])
+//@ ensures [C11,C16,C12,C10] an_ordinary_call_keeps_the_invariants: err == NoErr && !moduleSvcFound(msg.ServiceName) ==>
+//@      schedInv(raw) && actInv(raw) && cntInv(raw) && futInv(raw, ctxHeight(ctx)) && cadInv(raw, maxNext(ghostMaxTot, raw))
+//@ ensures [C10,C01] a_module_service_call_keeps_the_invariants: err == NoErr && moduleSvcFound(msg.ServiceName) ==>
+//@      schedInv(raw) && actInv(raw) && cntInv(raw) && futInv(raw, ctxHeight(ctx)) && cadInv(raw, maxNext(ghostMaxTot, raw))
+//@ ensures error_changes_no_record: err != NoErr && !moduleSvcFound(msg.ServiceName) ==> raw == old(raw) && bal == old(bal)
+
 //@ func handleMsgRespondService
 //@ props C05 C08 C02 C20
+//@ preserves [C10] never_more_batches_than_the_largest_total: cadInv(raw, ghostMaxTot)
 //@ preserves [C11] no_event_in_the_past: futInv(raw, ctxHeight(ctx))
 //@ preserves [C12,C16,C08] open_batches_count_their_pending_requests: cntInv(raw)
 //@ preserves [C11] queues_stay_well_formed: schedInv(raw)
@@ -284,6 +318,7 @@ package service
 
 //@ func handleMsgWithdrawEarnedFees
 //@ props C05 C13 C20
+//@ preserves [C10] never_more_batches_than_the_largest_total: cadInv(raw, ghostMaxTot)
 //@ preserves [C11] no_event_in_the_past: futInv(raw, ctxHeight(ctx))
 //@ preserves [C12,C16,C08] open_batches_count_their_pending_requests: cntInv(raw)
 //@ preserves [C11] queues_stay_well_formed: schedInv(raw)
@@ -308,6 +343,7 @@ package service
 // ---------------------------------------------------------------- EndBlocker: the two queue scans of one block
 //@ func EndBlocker
 //@ props C11 C03 C16 C20 C10
+//@ preserves [C10] never_more_batches_than_the_largest_total: cadInv(raw, ghostMaxTot)
 //@ preserves [C12,C16,C08] open_batches_count_their_pending_requests: cntInv(raw)
 //@ modifies raw, bal, supply, cblog
 //@ preserves wf: WF(raw)
@@ -326,7 +362,7 @@ package service
 //@ loop IterateNewRequestBatch.0 invariant pos_in_range: 0 <= iterator_pos && iterator_pos <= itCount(iterator_snap, iterator_pfx)
 //@ loop IterateNewRequestBatch.0 invariant snapshot: iterator_snap == call_raw && iterator_pfx == PNewQ(ctxHeight(ctx)) && requestBatchHeight == ctxHeight(ctx)
 //@ loop IterateNewRequestBatch.0 invariant wf: WF(raw) && depInv(raw, bal) && actInv(raw) && schedInv(raw) && cntInv(raw)
-//@ loop IterateNewRequestBatch.0 invariant [C11] no_event_in_the_past: futInv(raw, ctxHeight(ctx))
+//@ loop IterateNewRequestBatch.0 invariant [C11] no_event_in_the_past: futInv(raw, ctxHeight(ctx)) && cadInv(raw, ghostMaxTot)
 //@ loop IterateNewRequestBatch.0 invariant [C11] visited_entries_consumed: forall id Bytes :: {raw[KNewQ(ctxHeight(ctx), id)]}
 //@      (iterator_snap[KNewQ(ctxHeight(ctx), id)] == bnil || itIdx(iterator_snap, iterator_pfx, KNewQ(ctxHeight(ctx), id)) < iterator_pos) ==> raw[KNewQ(ctxHeight(ctx), id)] == bnil
 //@ loop IterateNewRequestBatch.0 invariant unvisited_entries_untouched: forall id Bytes :: {raw[KNewQ(ctxHeight(ctx), id)]}
@@ -337,7 +373,7 @@ package service
 //@ loop IterateNewRequestBatch.0 invariant unvisited_contexts_untouched: forall id Bytes :: {raw[KCtx(id)]}
 //@      (iterator_snap[KNewQ(ctxHeight(ctx), id)] != bnil && itIdx(iterator_snap, iterator_pfx, KNewQ(ctxHeight(ctx), id)) >= iterator_pos) ==>
 //@      raw[KCtx(id)] == iterator_snap[KCtx(id)]
-//@ loop IterateExpiredRequestBatch.0 invariant queues_ok: schedInv(raw) && cntInv(raw) && futInv(raw, ctxHeight(ctx))
+//@ loop IterateExpiredRequestBatch.0 invariant queues_ok: schedInv(raw) && cntInv(raw) && futInv(raw, ctxHeight(ctx)) && cadInv(raw, ghostMaxTot)
 //@ loop IterateExpiredRequestBatch.0 invariant unvisited_contexts_untouched: forall id Bytes :: {raw[KCtx(id)]} {raw[KExpH(id)]} {raw[KNewH(id)]}
 //@      (iterator_snap[KExpQ(ctxHeight(ctx), id)] != bnil && itIdx(iterator_snap, iterator_pfx, KExpQ(ctxHeight(ctx), id)) >= iterator_pos) ==>
 //@      raw[KCtx(id)] == iterator_snap[KCtx(id)] && raw[KExpH(id)] == iterator_snap[KExpH(id)] && raw[KNewH(id)] == iterator_snap[KNewH(id)]
